@@ -878,6 +878,49 @@ static void run_nsnest(uint64_t idx, Ctx& c) {
     if (idx % 997 == 0) c.sample("{\"tree\":" + jstr(to.label) + "}");
 }
 
+// =========================================================================================== space "ladder"
+// One long character-data item whose interesting character sits at, just before and just behind the block edges of XMLFormatter
+// (kTmpBufSize = 16384 source units per transcodeTo call, 16384 output bytes): <a> + {Text, attribute value, CDATA, Comment} holding
+// filler^(N+off) + special + "tail", N in {8192, 16384, 32768}, off in -3..+1, filler 'x' (1 byte in every encoding) or U+00E9 (2 bytes
+// in UTF-8, a reference in US-ASCII), special in {U+10000, U+20AC, '&', CR, ']]>'}.
+static const size_t LADN[] = {8192, 16384, 32768};
+static const int LADOFF[] = {-3, -2, -1, 0, 1};
+static const char* LADSPN[] = {"U+10000", "U+20AC", "&", "CR", "]]>"};
+static const char* LADKN[] = {"Text", "Attr", "CDATA", "Comment"};
+static uint64_t ladder_total() { return 3ULL * 5 * 5 * 2 * 4; }
+static std::string ladder_label(uint64_t i) {
+    int kind = (int)(i % 4); i /= 4; int fill = (int)(i % 2); i /= 2; int sp = (int)(i % 5); i /= 5; int off = (int)(i % 5); i /= 5; int n = (int)i;
+    return std::string("<a> with ") + LADKN[kind] + " = " + (fill ? "U+00E9" : "x") + "^(" + std::to_string(LADN[n]) + (LADOFF[off] < 0 ? "" : "+") + std::to_string(LADOFF[off]) + ") " + LADSPN[sp] + " tail";
+}
+static void run_ladder(uint64_t idx, Ctx& c) {
+    uint64_t i = idx;
+    int kind = (int)(i % 4); i /= 4; int fill = (int)(i % 2); i /= 2; int sp = (int)(i % 5); i /= 5; int off = (int)(i % 5); i /= 5; int n = (int)i;
+    U16 data((size_t)((long)LADN[n] + LADOFF[off]), fill ? (char16_t)0xE9 : u'x');
+    switch (sp) {
+    case 0: data += (char16_t)0xD800; data += (char16_t)0xDC00; break;
+    case 1: data += (char16_t)0x20AC; break;
+    case 2: data += u'&'; break;
+    case 3: data += u'\r'; break;
+    default: data += u16("]]>"); break;
+    }
+    data += u16("tail");
+    if (kind == 3 && sp == 4) { c.count("ladder_skipped_comment_with_cdata_end"); }   // "]]>" is ordinary comment data; kept (no '--' in it)
+    DOMDocument* d = g_core->createDocument();
+    struct RelDoc { DOMDocument* d; ~RelDoc() { d->release(); } } rel{d};
+    DOMElement* a = d->createElementNS(nullptr, X16("a").p());
+    d->appendChild(a);
+    switch (kind) {
+    case 0: a->appendChild(d->createTextNode(xs(data))); break;
+    case 1: a->setAttributeNS(nullptr, X16("x").p(), xs(data)); break;
+    case 2: a->appendChild(d->createCDATASection(xs(data))); break;
+    default: a->appendChild(d->createComment(xs(data))); break;
+    }
+    c.count("trees");
+    TreeOpts to; to.dropNs = false; to.label = ladder_label(idx);
+    check_tree(d, to, c);
+    if (idx % 97 == 0) c.sample("{\"tree\":" + jstr(to.label) + "}");
+}
+
 // =========================================================================================== space "data"
 static const char* CTXN[] = {"Text", "CDATA", "Comment", "PI", "Attr", "Text+CDATA+Text"};
 static const int NCTX = 6;
@@ -1085,6 +1128,11 @@ int main(int argc, char** argv) {
         R.fn = run_built;
         R.describe = [](uint64_t i) { return "{\"tree\":" + jstr(steps_label((int)(i % 2), word_at(i / 2, STEPS.size(), g_steps))) + "}"; };
         extra += ",\"alphabet\":" + std::to_string(STEPS.size()) + ",\"depth\":" + std::to_string(g_steps);
+    } else if (space == "ladder") {
+        R.total = ladder_total();
+        R.fn = run_ladder;
+        R.describe = [](uint64_t i) { return "{\"tree\":" + jstr(ladder_label(i)) + "}"; };
+        extra += ",\"lengths\":[8192,16384,32768],\"offsets\":[-3,1]";
     } else if (space == "nsnest") {
         init_nsnest();
         R.total = words_upto(NSLEVELS.size(), g_steps) - 1;
